@@ -1,0 +1,25 @@
+//go:build verif
+
+package couchbase
+
+// Contracts checked by /verif (govc). Comment-only: no executable code.
+
+//@ pure lexGreater(a1 int, a2 int, a3 int, a4 int, b1 int, b2 int, b3 int, b4 int) bool = a1 > b1 || a1 == b1 && (a2 > b2 || a2 == b2 && (a3 > b3 || a3 == b3 && a4 > b4))
+
+//@ func (*Version).Equal
+//@ props C18
+//@ requires v != nil && ov != nil
+//@ ensures.eq[C18] result == (v.Major == ov.Major && v.Minor == ov.Minor && v.Patch == ov.Patch && v.Build == ov.Build)
+//@ modifies nothing
+
+//@ func (*Version).Higher
+//@ props C18
+//@ requires v != nil && ov != nil
+//@ ensures.lex[C18] result == lexGreater(v.Major, v.Minor, v.Patch, v.Build, ov.Major, ov.Minor, ov.Patch, ov.Build)
+//@ modifies nothing
+
+//@ func (*Version).Lower
+//@ props C18
+//@ requires v != nil && ov != nil
+//@ ensures.lex[C18] result == lexGreater(ov.Major, ov.Minor, ov.Patch, ov.Build, v.Major, v.Minor, v.Patch, v.Build)
+//@ modifies nothing
